@@ -156,7 +156,7 @@ func init() {
 	})
 
 	engine.RegisterCheck("C06", func(r *engine.Run) {
-		r.Rule = "SEQ, differential: every write history up to the stated depth; after each operation the current-state answers (entity lookups per scope, relationship queries with limits 0 and 1) are recorded as the truth for the instants exactly at, 1ns before and 1ns after that commit; at the end of every history every recorded instant is re-evaluated as a point-in-time query (continuations pin the instant) and compared with its truth"
+		r.Rule = "SEQ, differential: every write history up to the stated depth; after each operation the current-state answers (entity lookups per scope, relationship queries with limits 0 and 1) are recorded as the truth for the instants exactly at, 1ns before and 1ns after that commit; at the end of every history every recorded instant is re-evaluated as a point-in-time query (continuations pin the instant) and compared with its truth; in the reference-shaped search a client also starts a paged current-state query (limit 1, outgoing * / incoming p) and fetches the remaining pages after later writes: the union must be what the graph gave when the query was started"
 		r.Assumptions = []string{"badger transactions are linearizable", "commit times are the implementation's real clock; only their order matters"}
 		ids2 := []string{"e1", "e2"}
 		alpha := vWriteAlphabet(vDS, ids2, poolIdx("v1", "v2", "dv1", "r2", "r23", "dr2", "dv2", "r3"), poolIdx("v1", "dv1", "r2"), [][2]int{{0, 2}})
@@ -191,6 +191,8 @@ func init() {
 		for _, id := range []string{"e2", "e3"} {
 			refs = append(refs, VOp{K: "batch", DS: "A", Ents: []VEnt{{id, poolIdx("r2")[0]}}})
 		}
+		// a client that started a paged current-state query, and fetches the rest after later writes
+		refs = append(refs, VOp{K: "qstart"}, VOp{K: "qstart", LO: true}, VOp{K: "qcont"})
 		rdepth := 3
 		if !r.Quick() {
 			rdepth = 5
